@@ -295,9 +295,13 @@ Definition sidecar_after_loss (n j : nat) : option (list nat) :=
    on after the last seq it has delivered; the filter `seq > last` runs on the seq of the last frame DELIVERED (history
    or live), not only on the last history seq.
    Producer = record-then-publish, handler = subscribe-then-snapshot (the orders of today's code); the schedule is any
-   list over {AP, AS i, AO} as before. *)
-Inductive lagpolicy := LagSkip | LagRefill.
-Definition lag_refills (p : lagpolicy) : bool := match p with LagRefill => true | LagSkip => false end.
+   list over {AP, AS i, AO} as before.
+   LagRefillResubscribe: as LagRefill, and after the history was re-read the receiver is replaced by a NEW one positioned at
+   the channel's tail (`receiver = receiver.resubscribe()`): snapshot first, subscribe second - the join rule backwards.
+   It differs from LagRefill only in the model with the window (wfinal, below); in the window-free model rfinal a
+   policy other than LagRefill does not refill. *)
+Inductive lagpolicy := LagSkip | LagRefill | LagRefillResubscribe.
+Definition lag_refills (p : lagpolicy) : bool := match p with LagRefill => true | _ => false end.
 Record rsub := {
   rs_pc : nat;                          (* 0: not subscribed, 1: subscribed, >= 2: snapshotted (attached) *)
   rs_live : list (option nat);          (* receiver queue *)
@@ -344,6 +348,60 @@ Definition rattached (s : rsub) : bool := Nat.leb 2 (rs_pc s).
 Definition rdelivered (pol : lagpolicy) (fin : rst) (s : rsub) : list nat := rs_out (rdrain pol (r_hist fin) s).
 Definition rpublished (n : nat) (s : rst) : nat := n - count_pub (r_prog s).
 
+(* ---------- the same with the WINDOW between the history re-read and the handler's next recv ----------
+   rfinal's drain is one atomic step.  In live_frames the recovery is: recv says Lagged; refill() reads the history; the
+   frames are queued; the loop goes back to recv.  Between the history read and the next recv the producer may record and
+   publish (hook point `sse.live.refilled`), so here a lagged drain STOPS after the history read (w_win := true, the
+   receiver untouched: it still holds what the channel retained and keeps receiving) and the subscriber's next step
+   resumes: LagRefill carries on with the same receiver (a frame published in the window is in it - or pushed it over
+   the capacity again, and then the next recv says Lagged again and the history is re-read again); LagRefillResubscribe
+   first replaces the receiver by one at the channel's tail, which holds nothing of the window. *)
+Record wsub := { w_s : rsub; w_win : bool }.
+Definition wfresh : wsub := {| w_s := rfresh; w_win := false |}.
+Record wst := { w_prog : list pstep; w_hist : list nat; w_subs : list wsub }.
+Definition winit (n m : nat) : wst := {| w_prog := producer_prog RecThenPub n; w_hist := []; w_subs := repeat wfresh m |}.
+(* Lagged: the history goes out (after the last seq written), the receiver keeps what the channel still holds *)
+Definition wrefill (hist : list nat) (s : rsub) : rsub :=
+  {| rs_pc := rs_pc s; rs_live := rs_live s; rs_out := emit_new (rs_out s) hist; rs_pend := false |}.
+(* receiver.resubscribe(): a new receiver at the tail of the channel *)
+Definition wresub (s : rsub) : rsub :=
+  {| rs_pc := rs_pc s; rs_live := []; rs_out := rs_out s; rs_pend := false |}.
+(* no Lagged: what is queued goes out *)
+Definition wplain (s : rsub) : rsub :=
+  {| rs_pc := rs_pc s; rs_live := []; rs_out := emit_new (rs_out s) (own (rs_live s)); rs_pend := false |}.
+(* one scheduled step of an attached subscriber: it runs up to its next stop *)
+Definition wdrain (pol : lagpolicy) (hist : list nat) (x : wsub) : wsub :=
+  let s := if w_win x then match pol with LagRefillResubscribe => wresub (w_s x) | _ => w_s x end else w_s x in
+  if rs_pend s then
+    match pol with
+    | LagSkip => {| w_s := wplain s; w_win := false |}
+    | _ => {| w_s := wrefill hist s; w_win := true |}
+    end
+  else {| w_s := wplain s; w_win := false |}.
+Definition wsub_step (pol : lagpolicy) (hist : list nat) (x : wsub) : wsub :=
+  match rs_pc (w_s x) with
+  | 0 | 1 => {| w_s := rsub_step LagSkip hist (w_s x); w_win := false |}   (* subscribe; snapshot *)
+  | _ => wdrain pol hist x
+  end.
+Definition wdeliver (cap : nat) (k : option nat) (x : wsub) : wsub := {| w_s := rdeliver cap k (w_s x); w_win := w_win x |}.
+Definition wstep (pol : lagpolicy) (cap : nat) (s : wst) (a : actor) : wst :=
+  match a with
+  | AP => match w_prog s with
+          | [] => s
+          | Pub k :: r => {| w_prog := r; w_hist := w_hist s; w_subs := map (wdeliver cap (Some k)) (w_subs s) |}
+          | Rec k :: r => {| w_prog := r; w_hist := w_hist s ++ [k]; w_subs := w_subs s |}
+          end
+  | AS i => {| w_prog := w_prog s; w_hist := w_hist s; w_subs := upd_nth i (wsub_step pol (w_hist s)) (w_subs s) |}
+  | AO => {| w_prog := w_prog s; w_hist := w_hist s; w_subs := map (wdeliver cap None) (w_subs s) |}
+  end.
+Definition wfinal (pol : lagpolicy) (cap n m : nat) (sched : list actor) : wst := fold_left (wstep pol cap) sched (winit n m).
+Definition wattached (x : wsub) : bool := rattached (w_s x).
+(* what the client has once it has read everything that is pending (nothing else moves: two steps reach the fixed point -
+   resume / re-read, then the plain drain) *)
+Definition wdelivered (pol : lagpolicy) (fin : wst) (x : wsub) : list nat :=
+  rs_out (w_s (wdrain pol (w_hist fin) (wdrain pol (w_hist fin) x))).
+Definition wpublished (n : nat) (s : wst) : nat := n - count_pub (w_prog s).
+
 (* ---------- correspondence ---------- *)
 Definition enc_list (l : list nat) : list N := nlen l :: map N.of_nat l.
 Definition observe (c : cfg) (s : st) : list N :=
@@ -353,7 +411,7 @@ Record case := {
   c_kind : N; c_porder : porder; c_n : nat; c_subs : nat; c_sched : list actor; c_expect : list N;
   (* 0: the channel of the real size (16 384 frames; the runs are far shorter: the unbounded model is exact, see below);
      cap > 0: the case ran with event channels of cap frames (hook ripd::verif::set_event_channel_capacity), so
-     receivers DO lag: compared with the refill model rfinal LagRefill cap *)
+     receivers DO lag: compared with the refill model with the window, wfinal LagRefill cap *)
   c_lagcap : nat }.
 
 Definition case_cfg (c : case) : cfg :=
@@ -362,9 +420,13 @@ Definition robserve (pol : lagpolicy) (s : rst) : list N :=
   concat (map (fun x => (if rattached x then 1%N else 0%N) :: enc_list (if rattached x then rdelivered pol s x else [])) (r_subs s)).
 (* capacity: the real channels hold 16 384 frames; a stream of n <= capacity frames can never lag
    (c06_lag_bound), and the correspondence runs have n <= 60, so the unbounded channel is exact here *)
+Definition wobserve (pol : lagpolicy) (s : wst) : list N :=
+  concat (map (fun x => (if wattached x then 1%N else 0%N) :: enc_list (if wattached x then wdelivered pol s x else [])) (w_subs s)).
+(* small channels: the model with the window - the real handler stops at `sse.live.refilled` after every history re-read
+   and the scheduler decides who moves next *)
 Definition model_obs (c : case) : list N :=
   match c_lagcap c with
   | 0 => let g := case_cfg c in observe g (run g (c_sched c) (init g (c_n c) (c_subs c)))
-  | cap => robserve LagRefill (rfinal LagRefill cap (c_n c) (c_subs c) (c_sched c))
+  | cap => wobserve LagRefill (wfinal LagRefill cap (c_n c) (c_subs c) (c_sched c))
   end.
 Definition check_case (c : case) : bool := lN_eqb (model_obs c) (c_expect c).
